@@ -196,9 +196,9 @@ Render(doc, o) ==
 \* type: RuleEvents reports first) and "matrixdup2" (the value twice in one matrix row: RuleMatrix reports a duplicate
 \* first, and the expression diagnostic is expected at BOTH values) hold TWO diagnosed constructs of two rules in
 \* one scalar: a rule must not disturb the position another rule reports for the same node
-AllExprSlots == {"env", "runname", "stepname", "run", "with", "matrix", "ifw", "ifb", "timeout", "filter", "types",
-                 "matrixdup2"}
-NoIf == AllExprSlots \ {"ifw", "ifb"}
+AllExprSlots == {"env", "runname", "stepname", "run", "with", "matrix", "ifw", "ifb", "jobifb", "timeout", "filter",
+                 "types", "matrixdup2"}
+NoIf == AllExprSlots \ {"ifw", "ifb", "jobifb"}
 
 X(b, t, a, sq, fp, bp, bare, slots, phrase) ==
   [fam |-> "tok", b |-> b, t |-> t, a |-> a, sq |-> sq, fp |-> fp, bp |-> bp, bare |-> bare, slots |-> slots,
@@ -261,6 +261,11 @@ Cat(c) ==
                                   "unexpected end of input while parsing variable access")
     [] c = "int-range"       -> X("1 == ", "2147483648", "", FALSE, TRUE, TRUE, TRUE, AllExprSlots,
                                   "parsing invalid integer literal \"2147483648\"")
+    \* a }} written in a condition without ${{ }}: the token is the first } of the stray }} (t = "}", a starts with "}")
+    [] c = "if-stray-close"  -> X("github.sha ", "}", "} && true", FALSE, FALSE, TRUE, TRUE, {"ifb", "jobifb"},
+                                  "unexpected \"}}\" in \"if\" condition")
+    [] c = "if-stray-close1" -> X("1", "}", "}", FALSE, FALSE, TRUE, TRUE, {"ifb", "jobifb"},
+                                  "unexpected \"}}\" in \"if\" condition")
     [] c = "ctx-notallowed"  -> X("true && ", "runner", ".os", FALSE, TRUE, TRUE, FALSE,
                                   {"env", "runname", "matrix", "matrixdup2", "timeout"}, "context \"runner\" is not allowed here")
     [] c = "func-notallowed" -> X("true && ", "success", "()", FALSE, TRUE, TRUE, FALSE, NoIf,
@@ -387,6 +392,11 @@ Cat(c) ==
     [] c = "label-conflict" -> KV("elem", "runsonseq", "", "windows-latest", FALSE, TRUE, "runner-label",
                                   "label \"windows-latest\" conflicts with label \"ubuntu-latest\" defined at")
     [] c = "step-id-dup"    -> KV("val", "stepids", "id", "DUP", FALSE, TRUE, "id", "step ID \"DUP\" duplicates")
+    \* ---- runner labels that reach `runs-on: ${{ matrix.os }}` through the matrix: the label scalar in the matrix
+    [] c = "matrix-label"   -> KV("elem", "matrixos", "", "ubuntu-latestt", FALSE, TRUE, "runner-label",
+                                  "label \"ubuntu-latestt\" is unknown")
+    [] c = "include-label"  -> KV("val", "includeos", "os", "ubuntu-bogus", FALSE, TRUE, "runner-label",
+                                  "label \"ubuntu-bogus\" is unknown")
     \* ---- two rules report on one scalar: the diagnostic of the rule under test next to one of RuleExpression
     [] c = "deprecated-cmd-expr"  -> KV("val", "stepn", "run", "echo ::set-output name=x::${{ nope }}", FALSE, FALSE,
                                         "deprecated-commands", "workflow command \"set-output\" was deprecated")
@@ -413,7 +423,7 @@ Cat(c) ==
 ExprClasses == {"undef-prop", "undef-prop0", "undef-var", "undef-func", "arg-count", "arg-type", "vararg-type", "compare",
                 "index-type", "index-operand", "filter-recv", "deref-nonobj", "format-unused", "fromjson",
                 "cfgvar-name", "lex-char", "lex-amp", "lex-num", "parse-dot", "parse-remain", "parse-end",
-                "parse-empty", "int-range", "ctx-notallowed", "func-notallowed", "untrusted", "tmpl-object"}
+                "parse-empty", "int-range", "if-stray-close", "if-stray-close1", "ctx-notallowed", "func-notallowed", "untrusted", "tmpl-object"}
 KVClasses == {"unknown-key-top", "unknown-key-conc", "unknown-key-step", "unknown-key-push", "dup-key-step",
               "env-name", "perm-scope", "perm-value", "perm-all", "input-undefined", "exclude-unknown", "job-id",
               "needs-unknown", "needs-dup", "step-id", "shell-name", "bool-literal", "bool-type", "if-always",
@@ -424,20 +434,20 @@ KVClasses == {"unknown-key-top", "unknown-key-conc", "unknown-key-step", "unknow
               "empty-string", "int-literal", "max-parallel-zero", "timeout-zero", "schedule-elem", "event-in-seq",
               "event-in-seq2", "on-schedule-scalar", "call-input-type", "call-type-missing", "call-value-missing",
               "key-conflict-run", "key-conflict-uses", "workdir-with-uses", "secrets-scalar", "call-stepsonly-key",
-              "call-only-key", "excl-branches", "excl-tags", "excl-paths", "needs-cycle", "label-conflict", "step-id-dup",
+              "call-only-key", "excl-branches", "excl-tags", "excl-paths", "needs-cycle", "label-conflict", "step-id-dup", "matrix-label", "include-label",
               "deprecated-cmd-expr", "if-always-expr", "activity-type-expr", "matrix-dup-expr"}
 GlobClasses == {"glob-refchar", "glob-space", "glob-quant", "glob-empty", "glob-range", "glob-refchar-expr"}
 AllClasses == ExprClasses \cup KVClasses \cup GlobClasses
 \* class sets named by the configurations (spec/cfg/Position_*.cfg)
-ArithClasses == {"undef-prop", "lex-num", "parse-end", "tmpl-object"}
+ArithClasses == {"undef-prop", "lex-num", "parse-end", "tmpl-object", "if-stray-close"}
 LayoutClasses == {"undef-prop0", "arg-type", "tmpl-object"}
 KVGlobClasses == KVClasses \cup GlobClasses
 
 \* slots whose enclosing collection can only be written in block style
-BlockOnly == {"runname", "timeout", "top", "job", "runson", "jobid", "needsunk", "stepn", "onkey"}
+BlockOnly == {"runname", "timeout", "top", "job", "runson", "jobid", "needsunk", "stepn", "onkey", "jobifb"}
 \* a single ${{ }} must cover the whole scalar
 WholeSlots == {"timeout"}
-BareSlots == {"ifb"}
+BareSlots == {"ifb", "jobifb"}        \* step level and job level
 NoContextSlots == {"filter", "types"}
 \* classes whose host marks an entry in front of which a wrapped flow collection breaks the line: diagnostics whose
 \* position is CHOSEN among several candidates (the later of two keys, the first job of a cycle, the second of two equal
@@ -522,6 +532,7 @@ ExprDoc(p) ==
                               Jobs(<< E("strategy", M(<< E("matrix", M(<< E("k", C(Q(<< Companion(p), x >>), cs)) >>)) >>)) >>,
                                    Q(<< Step0 >>)))
     [] s = "timeout" -> WF(S0("push"), <<>>, Jobs(<< E("timeout-minutes", x) >>, Q(<< Step0 >>)))
+    [] s = "jobifb" -> WF(S0("push"), <<>>, Jobs(<< E("if", x) >>, Q(<< Step0 >>)))
 
 KVDoc(p) ==
   LET c == Cat(p.cls)
@@ -542,6 +553,15 @@ KVDoc(p) ==
                                 Brk(E("b", JobBody(<< E("needs", S0("a")) >>, Q(<< Step0 >>)))) >>), cs))
     [] s = "runsonseq" -> WF(S0("push"), <<>>,
                              M(<< E("test", M(<< E("runs-on", C(Q(<< P0("ubuntu-latest"), [x EXCEPT !.brk = TRUE] >>), cs)),
+                                                 E("steps", Q(<< Step0 >>)) >>)) >>))
+    [] s = "matrixos" -> WF(S0("push"), <<>>,
+                            M(<< E("test", M(<< E("runs-on", S0("${{ matrix.os }}")),
+                                                E("strategy", M(<< E("matrix", M(<< E("os", C(Q(<< S0("ubuntu-latest"), x >>), cs)) >>)) >>)),
+                                                E("steps", Q(<< Step0 >>)) >>)) >>))
+    [] s = "includeos" -> WF(S0("push"), <<>>,
+                             M(<< E("test", M(<< E("runs-on", S0("${{ matrix.os }}")),
+                                                 E("strategy", M(<< E("matrix", M(<< E("os", Q(<< S0("ubuntu-latest") >>)),
+                                                                                    E("include", Q(<< C(M(<< ent >>), cs) >>)) >>)) >>)),
                                                  E("steps", Q(<< Step0 >>)) >>)) >>))
     [] s = "stepids" -> WF(S0("push"), <<>>,
                            Jobs(<<>>, Q(<< M(<< E("run", S0("echo")), E("id", P0("dup")) >>),
